@@ -339,6 +339,11 @@ fn interp(ty: &Ty, n: &Node) -> Result<Option<Val>, ()> {
                         if *deny {
                             return Err(());
                         }
+                        // an unknown field is ignored, but the mapping is still subject to the duplicate-key policy
+                        // (Error by default): the same unknown key twice is rejected
+                        if entries.iter().filter(|(k2, _)| key_text(k2).as_deref() == Some(name.as_str())).count() > 1 {
+                            return Err(());
+                        }
                     }
                 }
             }
@@ -395,7 +400,9 @@ fn interp(ty: &Ty, n: &Node) -> Result<Option<Val>, ()> {
                         return Ok(None); // a tag that is no variant name: TaggedEnumMismatch or plain variant text
                     }
                 }
-                Node::Scalar { text, sty, tag: None, anchor } => {
+                // (a scalar that arrives as the payload of `!Variant payload` was re-tagged !!str above: for an enum it
+                // names the variant like an untagged scalar)
+                Node::Scalar { text, sty, tag, anchor } if tag.is_none() || tag.as_deref() == Some("!!str") => {
                     let name = docgen::event_text(text, *sty, &None, anchor);
                     match payload_of(&name, None)? {
                         Some(v) => v,
